@@ -4,7 +4,7 @@
    (the repaired code) on every holder against the shared holder set. *)
 From Coq Require Import List Arith.
 Import ListNotations.
-From NV Require Import Place.Policer Place.Rounds Place.RoundsProofs.
+From NV Require Import Place.Policer Place.Rounds Place.RoundsProofs Place.Repl Place.ReplProofs.
 
 (* Stable placement list [nodes] (no repetitions), REP R, all nodes reachable and
    accepting, holders inside the container, at least one holder: after R+1 rounds
@@ -47,6 +47,28 @@ Theorem C27_replicator_bounded : forall holds v q cands sends succ,
   /\ (NoDup cands -> NoDup succ).
 Proof. exact replicator_bounded. Qed.
 
+(* ... for EVERY kind of task and every environment (any answers of the remote nodes):
+   address-only tasks (the policer's) and tasks that carry the object (Task.SetObject:
+   post-placement replication, EC parts), where the LOCAL node is a regular target whose
+   successful local Put consumes one unit of the quantity and is reported.  At most [q]
+   reported nodes, every one a target of the task, reported once, and either a remote
+   node that was sent the object and stored it or the local node after a successful
+   local Put of a carried object. *)
+Theorem C27_replicator_bounded_any : forall e o q nodes sends succ,
+  handle_task_any e o q nodes = (sends, succ) ->
+  length succ <= q /\ incl succ nodes /\ incl sends nodes
+  /\ (forall n, In n succ ->
+        (n <> e_local e /\ In n sends /\ e_rep e n = RStored) \/ (n = e_local e /\ given_stored o))
+  /\ (NoDup nodes -> NoDup succ).
+Proof. exact handle_task_any_spec. Qed.
+
+(* non-vacuity: object carried, targets [local; 1; 2], two copies asked, everybody
+   stores: the local copy takes one unit, only node 1 is sent the object *)
+Example C27_example_local_target :
+  handle_task_any (mkEnv 9 true (fun _ => false) (fun _ => NotFound) (fun _ => RStored) true)
+                  (ObjGiven true true) 2 [9; 1; 2] = ([1], [9; 1]).
+Proof. reflexivity. Qed.
+
 Theorem C27_node_replication_bounded : forall nodes R holds v,
   NoDup nodes ->
   let r := node_result nodes R holds v in
@@ -69,4 +91,5 @@ Print Assumptions C27_progress.
 Print Assumptions C27_never_empty.
 Print Assumptions C27_primary_never_drops.
 Print Assumptions C27_replicator_bounded.
+Print Assumptions C27_replicator_bounded_any.
 Print Assumptions C27_node_replication_bounded.
